@@ -300,6 +300,10 @@ func c08Gen(t *rapid.T) c08Case {
 	for i := 0; i < nGen; i++ {
 		spec.Headers = append(spec.Headers, gen.HeaderSpec{Name: fmt.Sprintf("X-Gen-%d", i), Values: []string{rapid.SampledFrom([]string{"short", "a long generic header value with many words so that the header needs to be folded over more than one line for sure", "Grüße"}).Draw(t, "gv")}})
 	}
+	if rapid.IntRange(0, 3).Draw(t, "contentstar") == 0 {
+		// message-level fields whose names look like the MIME fields of the signed entity
+		spec.Headers = append(spec.Headers, gen.HeaderSpec{Name: rapid.SampledFrom([]string{"Content-Language", "Content-Location", "Content-Base", "content-language", "Contents", "MIME-Autoconverted"}).Draw(t, "contentname"), Values: []string{"en, de"}, Preformat: rapid.Bool().Draw(t, "contentpre")})
+	}
 	if rapid.Bool().Draw(t, "preformatted") {
 		spec.Headers = append(spec.Headers, gen.HeaderSpec{Name: "X-Preformatted", Values: []string{"preformatted value"}, Preformat: true})
 	}
